@@ -57,12 +57,12 @@ func structLitFields(info *types.Info, cl *ast.CompositeLit) map[string]string {
 func c05(c *core.Check) {
 	p := c.Prog
 	c.Explain = "Structural necessary conditions of selector matching and weighing, decided on the type-checked source: the vocabularies of the parser and of the three panicking Match dispatchers agree; each kind of simple selector has the Selectors-4 specificity constant and :is/:not/:has take the most specific argument; the dispatch tables (combinator → relation, attribute operator → predicate, structural pseudo-class name → (a,b,last,ofType)) are the Selectors tables; tag names, attribute names and pseudo-class names are ASCII-lowercased and the i flag reaches every value comparison; the substring and word operators cannot return true for an empty value; every String() method that writes a value between quotes escapes it, and every pseudo-class name a String() method prints is accepted by the parser; an+b division is guarded. The matching semantics themselves (sibling walks, an+b arithmetic, :empty) are not decided."
-	rArgs := c.Rule("R11", "no call passes two same-typed arguments under each other's parameter names (swapped arguments): every pair of arguments named after the callee's parameters is aligned with them", 5)
+	rArgs := c.Rule("R11", "no call passes two same-typed arguments under each other's parameter names (swapped arguments): every pair of arguments named after the callee's parameters is aligned with them", 7)
 	argNameRule(c, rArgs, "css/selector", nil, 8)
 
 	const pkg = "css/selector"
 	// ---- R1 vocabulary agreement with panicking dispatchers
-	r1 := c.Rule("R1", "every attribute operator, relative pseudo-class name and combinator the parser can construct has a case in the corresponding Match method (whose default panics)", 14)
+	r1 := c.Rule("R1", "every attribute operator, relative pseudo-class name and combinator the parser can construct has a case in the corresponding Match method (whose default panics)", 17)
 	pas := p.Method(pkg, "parser", "parseAttributeSelector")
 	am, amSw := methodSwitch(p, pkg, "attrSelector", "Match", "t.operation")
 	if pas == nil || am == nil || amSw == nil {
@@ -536,7 +536,7 @@ func c05(c *core.Check) {
 	}
 
 	// ---- R9 printed selectors re-parse
-	r9 := c.Rule("R9", "every String() method of css/selector that writes a value between double quotes passes it through an escaping function; every pseudo-class name written by a String() method is a name the parser accepts after lowercasing", 20)
+	r9 := c.Rule("R9", "every String() method of css/selector that writes a value between double quotes passes it through an escaping function; every pseudo-class name written by a String() method is a name the parser accepts after lowercasing", 24)
 	parserNames := map[string]bool{}
 	if nameSw != nil {
 		for _, s := range caseLabels(p.InfoOf(pps), nameSw) {
